@@ -1391,6 +1391,55 @@ def _unroll_asserts(block: tuple) -> tuple:
     return tuple(out)
 
 
+def _const_item(x) -> bool:
+    if isinstance(x, tuple) and x:
+        if x[0] == "k" or _is_sym_const(x):
+            return True
+        if x[0] in ("tuple", "list") and len(x) == 2:
+            return all(_const_item(y) for y in x[1])
+    return False
+
+
+def _unroll_const_loops(block: tuple) -> tuple:
+    """a loop over a display of a few constants (``for dr, dc in ((1, 0), (0, 1)): body``) is its body once per constant, with the
+    constant in place of the loop variable (no break / continue of its own in the body)"""
+    def jumps(body):
+        for x in body:
+            if isinstance(x, tuple) and x:
+                if x[0] in ("break", "continue"):
+                    return True
+                if x[0] == "if" and len(x) == 4 and (jumps(x[2]) or jumps(x[3])):
+                    return True
+        return False
+    out = []
+    for st in block:
+        if isinstance(st, tuple) and st:
+            if st[0] == "for" and len(st) == 5:
+                st = ("for", st[1], st[2], _unroll_const_loops(st[3]), _unroll_const_loops(st[4]))
+                it = st[2]
+                if not st[4] and isinstance(it, tuple) and it[:1] in (("tuple",), ("list",)) and len(it) == 2 and 2 <= len(it[1]) <= 4 \
+                        and all(_const_item(y) for y in it[1]) and not jumps(st[3]):
+                    ok = True
+                    copies = []
+                    for item in it[1]:
+                        mp = _match_target(st[1], item)
+                        if mp is None or not all(k[:1] == ("v",) for k in mp):
+                            ok = False
+                            break
+                        copies.extend(_renorm_local(Sigma(raw_subst=mp).apply(b)) for b in st[3])
+                    assigned = atoms_of(st[3], lambda y: (y[0] == "set" and len(y) == 3 and (y[1] == st[1] or (st[1][:1] == ("tuple",) and y[1] in st[1][1])))
+                                        or (y[0] == "aug" and len(y) == 4 and (y[2] == st[1] or (st[1][:1] == ("tuple",) and y[2] in st[1][1]))))
+                    if ok and not assigned:
+                        out.extend(copies)
+                        continue
+            elif st[0] == "if" and len(st) == 4:
+                st = ("if", st[1], _unroll_const_loops(st[2]), _unroll_const_loops(st[3]))
+            elif st[0] == "while" and len(st) == 4:
+                st = ("while", st[1], _unroll_const_loops(st[2]), _unroll_const_loops(st[3]))
+        out.append(st)
+    return tuple(out)
+
+
 def _renorm_local(x: S) -> S:
     """the rewrites that the canonicaliser applies when it sees a construct, applied again after locals have been looked
     through (so that the normal form does not depend on whether a value sat in a local): tests (`len(x) > 0` is `x`),
@@ -2171,7 +2220,7 @@ class Normalizer:
         unfolded = _unfold_list_comps(block, fresh)
         if unfolded != block:
             block = look_through(shape_passes(unfolded))
-        block = _unroll_asserts(block)
+        block = _unroll_asserts(_unroll_const_loops(block))
         if function_body:
             block = _function_tail(block)
             # a predicate written as guards ('if not a: return False' ; 'return b') is the one expression it computes ('a and b')
